@@ -118,6 +118,12 @@ func (c *FnCtx) countCall(name string) {
 }
 
 func (c *FnCtx) setGhost(k string, v Val) {
+	if strings.HasPrefix(k, "lastret ") {
+		if c.lastretTy == nil {
+			c.lastretTy = map[string]types.Type{}
+		}
+		c.lastretTy[k] = v.Ty
+	}
 	if c.discover {
 		if c.writes[c.wblk()] == nil {
 			c.writes[c.wblk()] = map[string]bool{}
